@@ -16,7 +16,7 @@ import (
 func init() {
 	register(Property{
 		ID:          "C09",
-		Explanation: "Decided statically on the two scanning closures (anchor: function literals that assign a local from text/scanner.(*Scanner).Next) and the small snippet constructors: R1 cursor discipline - no read of the cursor rune is reachable from an emit of it without an intervening Next() (a rune is never emitted and then dispatched again); R2 the rune that terminates a placeholder name is re-dispatched without reading the next one only when it is '@', and is emitted only when it is known not to be the apostrophe (so the apostrophe is consumed on every path, also for nil arguments); R3 every yielded value is the cursor rune or a fragment of an argument's own Frag - substituted text never flows back into a scanner; R4 the absent edge of the argument lookup reaches panic before any emit or return; R5 Sprintf verb table: %T -> ID / nested snippet, %v -> Value / nested snippet, %% -> the cursor, default -> panic, one argument consumed per %T/%v, missing argument -> panic; R6 the template format is pre-processed only by strings.TrimLeft(format, \"\\n\"); R7 Comment emits text only behind a constant starting with //, GoDirective starts with the constant //go: and guards arguments by len > 0, Snippets/Fragments yield the parts' own fragments in order, skipping only IsNil parts. R6 also covers the constructors (T, Sprintf, Block, ...): they store their arguments unchanged. R6 also: T stores every binding its argument sets yield (each iteration of the loop over Args() executes the keyed store); R7 also: no IsNil method iterates, calls or hands on a single-use receiver (an iterator function or channel): every rendering path asks IsNil before Frag. R3/R7 accept fragment forwarders (a function whose iterator yields nothing but the range values of its Snippet parameter's Frag) as the fragments of that snippet. R5 also: the test of a Sprintf argument against Snippet decides alone; R6 also: a map-typed field of a constructed value is a map made in the constructor. R2 also: a placeholder terminated by '@' hands that '@' to the dispatch before the next Next(); R4/R5 also: the template panics only behind the absent edge of the argument lookup, Sprintf only in the argument helper or an arm of the verb switch; R7 also: every IsNil is a plain emptiness test. NOT decided: full input/output string equality of rendering for all formats and bindings (needs execution or symbolic execution).",
+		Explanation: "Decided statically on the two scanning closures (anchor: function literals that assign a local from text/scanner.(*Scanner).Next) and the small snippet constructors: R1 cursor discipline - no read of the cursor rune is reachable from an emit of it without an intervening Next() (a rune is never emitted and then dispatched again); R2 the rune that terminates a placeholder name is re-dispatched without reading the next one only when it is '@', and is emitted only when it is known not to be the apostrophe (so the apostrophe is consumed on every path, also for nil arguments); R3 every yielded value is the cursor rune or a fragment of an argument's own Frag - substituted text never flows back into a scanner; R4 the absent edge of the argument lookup reaches panic before any emit or return; R5 Sprintf verb table: %T -> ID / nested snippet, %v -> Value / nested snippet, %% -> the cursor, default -> panic, one argument consumed per %T/%v, missing argument -> panic; R6 the template format is pre-processed only by strings.TrimLeft(format, \"\\n\"); R7 Comment emits text only behind a constant starting with //, GoDirective starts with the constant //go: and guards arguments by len > 0, Snippets/Fragments yield the parts' own fragments in order, skipping only IsNil parts. R6 also covers the constructors (T, Sprintf, Block, ...): they store their arguments unchanged. R6 also: T stores every binding its argument sets yield (each iteration of the loop over Args() executes the keyed store); R7 also: no IsNil method iterates, calls or hands on a single-use receiver (an iterator function or channel): every rendering path asks IsNil before Frag. R3/R7 accept fragment forwarders (a function whose iterator yields nothing but the range values of its Snippet parameter's Frag) as the fragments of that snippet. R5 also: the test of a Sprintf argument against Snippet decides alone; R6 also: a map-typed field of a constructed value is a map made in the constructor. R2 also: a placeholder terminated by '@' hands that '@' to the dispatch before the next Next(); R4/R5 also: the template panics only behind the absent edge of the argument lookup, Sprintf only in the argument helper or an arm of the verb switch; R7 also: every IsNil is a plain emptiness test. NOT decided: full input/output string equality of rendering for all formats and bindings (needs execution or symbolic execution). Round 8: R8 the rune dispatched as the verb is the one read directly after '%': from that Next() no further Next() is reachable before the cursor was compared with 'T', 'v' or '%' (or looked up in a verb table).",
 		Assumptions: commonAssumptions,
 		Run:         runC09,
 	})
